@@ -153,19 +153,12 @@ fn user_callback() {
     }
 }
 
-unsafe fn vt_clone(p: *const ()) -> std::task::RawWaker {
+fn on_clone(id: usize, v: u8) {
     user_callback();
-    let (id, v) = untok(p);
     WAKER_BALANCE.with(|b| b.borrow_mut()[id][v as usize] += 1);
-    std::task::RawWaker::new(p, &VTABLE)
 }
-unsafe fn vt_wake(p: *const ()) {
-    vt_wake_by_ref(p);
-    vt_drop(p);
-}
-unsafe fn vt_wake_by_ref(p: *const ()) {
+fn on_wake_by_ref(id: usize, v: u8) {
     user_callback();
-    let (id, v) = untok(p);
     WAKE_LOG.with(|l| {
         let mut l = l.borrow_mut();
         if l.n < WAKE_LOG_CAP {
@@ -177,17 +170,61 @@ unsafe fn vt_wake_by_ref(p: *const ()) {
         }
     })
 }
-unsafe fn vt_drop(p: *const ()) {
+fn on_drop(id: usize, v: u8) {
     user_callback();
-    let (id, v) = untok(p);
     WAKER_BALANCE.with(|b| b.borrow_mut()[id][v as usize] -= 1);
 }
+
+// encoding 0: the variant (A / B) is part of the data pointer, one vtable
+unsafe fn vt_clone(p: *const ()) -> std::task::RawWaker {
+    let (id, v) = untok(p);
+    on_clone(id, v);
+    std::task::RawWaker::new(p, &VTABLE)
+}
+unsafe fn vt_wake(p: *const ()) {
+    vt_wake_by_ref(p);
+    vt_drop(p);
+}
+unsafe fn vt_wake_by_ref(p: *const ()) {
+    let (id, v) = untok(p);
+    on_wake_by_ref(id, v);
+}
+unsafe fn vt_drop(p: *const ()) {
+    let (id, v) = untok(p);
+    on_drop(id, v);
+}
 static VTABLE: std::task::RawWakerVTable = std::task::RawWakerVTable::new(vt_clone, vt_wake, vt_wake_by_ref, vt_drop);
+
+// encoding 1: waker B of a future has the SAME data pointer as its waker A and differs only in
+// the vtable (executors that pass themselves as data and encode the task in the vtable; all
+// null-data wakers). `will_wake` must still tell them apart.
+unsafe fn vtb_clone(p: *const ()) -> std::task::RawWaker {
+    on_clone(untok(p).0, 1);
+    std::task::RawWaker::new(p, &VTABLE_B)
+}
+unsafe fn vtb_wake(p: *const ()) {
+    vtb_wake_by_ref(p);
+    vtb_drop(p);
+}
+unsafe fn vtb_wake_by_ref(p: *const ()) {
+    on_wake_by_ref(untok(p).0, 1);
+}
+unsafe fn vtb_drop(p: *const ()) {
+    on_drop(untok(p).0, 1);
+}
+static VTABLE_B: std::task::RawWakerVTable = std::task::RawWakerVTable::new(vtb_clone, vtb_wake, vtb_wake_by_ref, vtb_drop);
 
 fn make_waker(id: usize, variant: u8) -> Waker {
     WAKER_BALANCE.with(|b| b.borrow_mut()[id][variant as usize] += 1);
     // Safety: the vtable functions only interpret the data pointer as a token
     unsafe { Waker::from_raw(std::task::RawWaker::new(tok(id, variant), &VTABLE)) }
+}
+
+/// waker B in encoding 1: data pointer of waker A, its own vtable
+fn make_waker_b_same_data(id: usize) -> Waker {
+    WAKER_BALANCE.with(|b| b.borrow_mut()[id][1] += 1);
+    // Safety: as above
+    unsafe { Waker::from_raw(std::task::RawWaker::new(tok(id, 0), &VTABLE_B)) }
 }
 
 /// back to "only the harness' persistent handle exists" (a failed run leaks its world)
@@ -299,6 +336,9 @@ pub struct Env {
     pub seq: u64,
     pub slots: [Slot; MAX_IDS],
     wakers: Vec<[Waker; 2]>,
+    wakers_b_same_data: Vec<Waker>,
+    /// 0: wakers A and B of a future differ in their data pointer; 1: only in their vtable
+    pub waker_enc: u8,
     pub fails: Vec<Fail>,
     pub log: Hasher64,
     pub stats: Stats,
@@ -333,12 +373,15 @@ impl Env {
         for id in 0..MAX_IDS {
             wakers.push([make_waker(id, 0), make_waker(id, 1)]);
         }
+        let wakers_b_same_data: Vec<Waker> = (0..MAX_IDS).map(make_waker_b_same_data).collect();
         let mut dummy = Vec::new();
         drain_wake_log(&mut dummy);
         Env {
             seq: 0,
             slots: [Slot::EMPTY; MAX_IDS],
             wakers,
+            wakers_b_same_data,
+            waker_enc: 0,
             fails: Vec::new(),
             log: Hasher64::default(),
             stats: Stats::default(),
@@ -414,7 +457,11 @@ impl Env {
     }
 
     pub fn waker(&self, id: usize, variant: u8) -> &Waker {
-        &self.wakers[id][variant as usize]
+        if variant == 1 && self.waker_enc == 1 {
+            &self.wakers_b_same_data[id]
+        } else {
+            &self.wakers[id][variant as usize]
+        }
     }
 
     pub fn fail(&mut self, prop: &str, oracle: &str, msg: String, fatal: bool) {
